@@ -119,6 +119,7 @@ func runC13(p *core.Program, r *core.Report) {
 	r.Rule("C13.sort", "comparators order by the primary list in the requested direction and break ties by the child list in the child's direction (all 18 orderings)", 9)
 	r.Rule("C13.perm", "sorting returns the original indices of the sorted (index,value) pairs: one pair per index", 9)
 	r.Rule("C13.filter", "filtering appends get(index[i]) for i ascending", 5)
+	r.Rule("C13.copy-out", "a list hands out its elements as a slice of exactly size elements: never the backing table itself, the whole table appended, or a result sized by the table's length", 3)
 	r.Rule("C13.linked", "linked list insert/unlink keep first/last/size consistent on every path", 5)
 
 	names := append([]string{}, c13Lists...)
@@ -132,6 +133,7 @@ func runC13(p *core.Program, r *core.Report) {
 			continue
 		}
 		c13Bounds(p, r, t)
+		c13CopyOut(p, r, t)
 		c13Sort(p, r, t)
 		c13Filter(p, r, t)
 	}
@@ -2202,4 +2204,82 @@ func intOnlyStmt(info *types.Info, st ast.Stmt) bool {
 		return true
 	}
 	return false
+}
+
+// c13CopyOut: a method of a typed list that hands out its elements as a slice hands out the sequence,
+// not the backing table: the table is longer than the list whenever capacity and size differ, and the
+// slots beyond size hold zero values or removed elements. In every parameterless method returning a
+// slice of the table's element type, the table is not returned as it is, not expanded whole into an
+// append, and not the measure of a make (len(table) / cap(table)); table[:size], make(size)+copy and
+// loops below size are the forms that stop at size.
+func c13CopyOut(p *core.Program, r *core.Report, t *types.Named) {
+	st, ok := t.Underlying().(*types.Struct)
+	if !ok {
+		return
+	}
+	var elem types.Type
+	tableName := ""
+	for i := 0; i < st.NumFields(); i++ {
+		if sl, ok := st.Field(i).Type().Underlying().(*types.Slice); ok && (st.Field(i).Name() == "table" || tableName == "") {
+			elem, tableName = sl.Elem(), st.Field(i).Name()
+		}
+	}
+	if elem == nil {
+		return
+	}
+	for _, fi := range p.MethodsOf(t) {
+		if fi.Decl.Body == nil || fi.Decl.Type.Params.NumFields() != 0 {
+			continue
+		}
+		sig := fi.Obj.Type().(*types.Signature)
+		if sig.Results().Len() != 1 {
+			continue
+		}
+		rs, ok := sig.Results().At(0).Type().Underlying().(*types.Slice)
+		if !ok || !types.Identical(rs.Elem(), elem) {
+			continue
+		}
+		rn := recvName(fi)
+		isTable := func(e ast.Expr) bool {
+			sel, ok := ast.Unparen(e).(*ast.SelectorExpr)
+			if !ok || sel.Sel.Name != tableName {
+				return false
+			}
+			id, ok := ast.Unparen(sel.X).(*ast.Ident)
+			return ok && id.Name == rn
+		}
+		bad := ""
+		ast.Inspect(fi.Decl.Body, func(n ast.Node) bool {
+			switch v := n.(type) {
+			case *ast.ReturnStmt:
+				if len(v.Results) == 1 && isTable(v.Results[0]) {
+					bad = "returns the backing table itself (" + p.Pos(v.Pos()) + ")"
+				}
+			case *ast.CallExpr:
+				id, ok := ast.Unparen(v.Fun).(*ast.Ident)
+				if !ok {
+					return true
+				}
+				switch id.Name {
+				case "append":
+					if v.Ellipsis.IsValid() && len(v.Args) >= 2 && isTable(v.Args[len(v.Args)-1]) {
+						bad = "appends the whole backing table (" + p.Pos(v.Pos()) + ")"
+					}
+				case "make":
+					for _, a := range v.Args[1:] {
+						if c, ok := ast.Unparen(a).(*ast.CallExpr); ok && len(c.Args) == 1 && isTable(c.Args[0]) {
+							if f, ok := c.Fun.(*ast.Ident); ok && (f.Name == "len" || f.Name == "cap") {
+								bad = "sizes the result by " + f.Name + "(" + tableName + ") (" + p.Pos(v.Pos()) + ")"
+							}
+						}
+					}
+				}
+			}
+			return true
+		})
+		if bad != "" {
+			bad += ": the result has one element per slot of the table, the size elements of the list followed by the unused and stale slots"
+		}
+		r.Check(bad == "", "C13.copy-out", core.FuncName(fi.Obj), p.Pos(fi.Decl.Pos()), "stops at size", bad)
+	}
 }
